@@ -56,7 +56,7 @@ fn main() {
     let mut rep = Report::new(&id, tier, seed);
     rep.strict = ctx.replay.is_some();
     // panics inside oracles are caught per case; keep the default hook quiet for expected ones
-    std::panic::set_hook(Box::new(|_| {}));
+    vkit::runner::install_panic_hook();
     if ctx.replay.is_none() {
         // seconds-long replay tier: saved regression inputs go through the same oracles first
         let dir = vkit::runner::verif_root().join("regressions").join(&id);
